@@ -46,7 +46,7 @@ ANCHORS = [
     'pgradd.GroupAdd.Library:GroupLibrary._do_load',
 ]
 CENTRES = ['C', 'O', 'H', 'C[d]', 'C[.]', 'CO', 'Pt', 'N[A]', 'C[B]', 'Ru']
-PERIPH = ['C', 'H', 'C[d]', 'CO', 'Pt', 'N[A]']
+PERIPH = ['C', 'H', 'C[d]', 'CO', 'Pt', 'N[A]', 'O']
 MALFORMED = ['3(C)', 'C(3)', 'C(H)²', 'C(H', 'C(H))', 'C((H))', 'C()', 'C(H)0',
              'C(H)()2', '', '(H)', 'C(H)2 3', 'C(H)(2)', 'C(H)٣', 'C(H)-1',
              'C(H)2(', 'C(H)1.5', 'C)H(', 'C(H)(', 'C(H)00', 'C(H)01']
